@@ -789,7 +789,7 @@ func (p *g1JacExtended) addMixed(a *G1Affine) *g1JacExtended {
 // doubleNegMixed works the same as double, but negates q.Y.
 func (p *g1JacExtended) doubleNegMixed(q *G1Affine) *g1JacExtended {
 
-	var Z, U, V, W, S, XX, M, S2, L fp.Element
+	var U, V, W, S, XX, M, S2, L fp.Element
 
 	U.Double(&q.Y)
 	U.Neg(&U)
@@ -799,8 +799,8 @@ func (p *g1JacExtended) doubleNegMixed(q *G1Affine) *g1JacExtended {
 	XX.Square(&q.X)
 	M.Double(&XX).
 		Add(&M, &XX)
-	Z.Square(&p.ZZ)
-	M.Add(&M, &Z)
+	// q is affine (ZZ = 1): M = 3*X² + a*ZZ² = 3*X² + a
+	M.Add(&M, &aCurveCoeff)
 	S2.Double(&S)
 	L.Mul(&W, &q.Y)
 
@@ -820,7 +820,7 @@ func (p *g1JacExtended) doubleNegMixed(q *G1Affine) *g1JacExtended {
 // http://www.hyperelliptic.org/EFD/g1p/auto-shortw-xyzz.html#doubling-dbl-2008-s-1
 func (p *g1JacExtended) doubleMixed(q *G1Affine) *g1JacExtended {
 
-	var Z, U, V, W, S, XX, M, S2, L fp.Element
+	var U, V, W, S, XX, M, S2, L fp.Element
 
 	U.Double(&q.Y)
 	V.Square(&U)
@@ -829,8 +829,8 @@ func (p *g1JacExtended) doubleMixed(q *G1Affine) *g1JacExtended {
 	XX.Square(&q.X)
 	M.Double(&XX).
 		Add(&M, &XX)
-	Z.Square(&p.ZZ)
-	M.Add(&M, &Z)
+	// q is affine (ZZ = 1): M = 3*X² + a*ZZ² = 3*X² + a
+	M.Add(&M, &aCurveCoeff)
 	S2.Double(&S)
 	L.Mul(&W, &q.Y)
 
